@@ -49,6 +49,13 @@ protected:
 
   size_t computeCellLinearIndex_(const CellIndexes & CellIndexes) const override;
 
+  static size_t wrapOffset_(size_t currentOffset, int indexOffset, size_t numberOfCells)
+  {
+    const long long int n = static_cast<long long int>(numberOfCells);
+    const long long int wrapped = (static_cast<long long int>(currentOffset) + indexOffset % n + n) % n;
+    return static_cast<size_t>(wrapped);
+  }
+
 protected:
   CellIndexes indexOffsetsAlongAxes_;
   CellIndexes numberOfCellsAlongAxesMinusOne_;
@@ -155,8 +162,8 @@ void WrappableGrid<T, DIM>::translate(
           this->buffer_[computeCellLinearIndex_(cellIndexes)] = emptyValue;
         }
       }
-      indexOffsetsAlongAxes_[0] = (numberOfCellsAlongXAxis + indexOffsetAlongXAxis) %
-        numberOfCellsAlongXAxis;
+      indexOffsetsAlongAxes_[0] = wrapOffset_(
+        indexOffsetsAlongAxes_[0], indexOffsetAlongXAxis, numberOfCellsAlongXAxis);
     }
 
     // translation along Y
@@ -176,8 +183,8 @@ void WrappableGrid<T, DIM>::translate(
         }
       }
 
-      indexOffsetsAlongAxes_[1] = (numberOfCellsAlongYAxis + indexOffsetAlongYAxis) %
-        numberOfCellsAlongYAxis;
+      indexOffsetsAlongAxes_[1] = wrapOffset_(
+        indexOffsetsAlongAxes_[1], indexOffsetAlongYAxis, numberOfCellsAlongYAxis);
     }
   } else {
     CellIndexes cellIndexes;
@@ -213,8 +220,8 @@ void WrappableGrid<T, DIM>::translate(
           }
         }
       }
-      indexOffsetsAlongAxes_[0] = (numberOfCellsAlongXAxis + indexOffsetAlongXAxis) %
-        numberOfCellsAlongXAxis;
+      indexOffsetsAlongAxes_[0] = wrapOffset_(
+        indexOffsetsAlongAxes_[0], indexOffsetAlongXAxis, numberOfCellsAlongXAxis);
     }
 
     // translation along Y
@@ -236,8 +243,8 @@ void WrappableGrid<T, DIM>::translate(
           }
         }
       }
-      indexOffsetsAlongAxes_[1] = (numberOfCellsAlongYAxis + indexOffsetAlongYAxis) %
-        numberOfCellsAlongYAxis;
+      indexOffsetsAlongAxes_[1] = wrapOffset_(
+        indexOffsetsAlongAxes_[1], indexOffsetAlongYAxis, numberOfCellsAlongYAxis);
     }
 
     // translation along Z
@@ -262,8 +269,8 @@ void WrappableGrid<T, DIM>::translate(
           }
         }
       }
-      indexOffsetsAlongAxes_[2] = (numberOfCellsAlongZAxis + indexOffsetAlongZAxis) %
-        numberOfCellsAlongZAxis;
+      indexOffsetsAlongAxes_[2] = wrapOffset_(
+        indexOffsetsAlongAxes_[2], indexOffsetAlongZAxis, numberOfCellsAlongZAxis);
     }
   }
 }
